@@ -74,19 +74,43 @@ def _walk_tu(tu):
     out = {"tu": tu, "funcs": {}, "vars": [], "records": {}, "enums": {}, "typedefs": {}, "writes": [], "tables": {}}
     cur_file = [None]
 
-    def loc_file(n):
-        loc = n.get("loc") or {}
-        f = loc.get("file") or (loc.get("spellingLoc") or {}).get("file") or (loc.get("expansionLoc") or {}).get("file")
-        if f:
-            cur_file[0] = f
+    last_line = [None]
+
+    def _bare(l):
+        if isinstance(l, dict) and l.get("file"):
+            cur_file[0] = l["file"]
+        if isinstance(l, dict) and l.get("line") is not None:
+            last_line[0] = l["line"]
         return cur_file[0]
+
+    def _loc(l):
+        """clang prints `file` only when it differs from the previously printed location (loc, then range.begin,
+        range.end; spellingLoc before expansionLoc): replay that order to know every node's file."""
+        if not isinstance(l, dict):
+            return cur_file[0]
+        if "spellingLoc" in l or "expansionLoc" in l:
+            r = cur_file[0]
+            for key in l:
+                if key in ("spellingLoc", "expansionLoc"):
+                    r = _bare(l[key])
+            return r
+        return _bare(l)
+
+    def loc_file(n):
+        f = _loc(n.get("loc")) if "loc" in n else cur_file[0]
+        rg = n.get("range")
+        if isinstance(rg, dict):
+            for key in rg:
+                if key in ("begin", "end"):
+                    _loc(rg[key])
+        return f
 
     def is_ours(f):
         return f is not None and not f.startswith("/usr") and "secp256k1/" not in f
 
     def visit(n, func, depth):
         k = n.get("kind")
-        f = loc_file(n) if "loc" in n else cur_file[0]
+        f = loc_file(n)
         if k == "FunctionDecl":
             name = n.get("name")
             params = [c for c in n.get("inner", []) if c.get("kind") == "ParmVarDecl"]
@@ -102,6 +126,7 @@ def _walk_tu(tu):
             if has_body:
                 ent["defined"] = True
                 ent["file"] = f
+                ent["calls"] = sorted(_called(n))
             for c in n.get("inner", []):
                 visit(c, name, depth + 1)
             return
@@ -117,7 +142,8 @@ def _walk_tu(tu):
                     out["tables"][n["name"]] = _init_table(n)
         elif k == "RecordDecl" and n.get("completeDefinition") and is_ours(f):
             fields = [(c.get("name"), c.get("type", {}).get("qualType"), _qt(c)) for c in n.get("inner", []) if c.get("kind") == "FieldDecl"]
-            nm = n.get("name") or ("anon@%s" % (n.get("loc") or {}).get("line"))
+            line = (n.get("loc") or {}).get("line") or ((n.get("loc") or {}).get("expansionLoc") or {}).get("line")
+            nm = n.get("name") or ("anon@%s:%s" % (os.path.basename(f or "?"), line if line is not None else last_line[0]))
             out["records"][nm] = {"fields": fields, "tag": n.get("tagUsed"), "id": n.get("id")}
         elif k == "EnumDecl" and is_ours(f):
             vals = []
@@ -175,6 +201,20 @@ def _base_declref(n):
         else:
             return None
     return None
+
+
+def _called(n, out=None):
+    """names of functions referenced inside a function body"""
+    if out is None:
+        out = set()
+    if isinstance(n, dict):
+        if n.get("kind") == "DeclRefExpr":
+            r = n.get("referencedDecl") or {}
+            if r.get("kind") == "FunctionDecl":
+                out.add(r.get("name"))
+        for c in n.get("inner", []) or []:
+            _called(c, out)
+    return out
 
 
 def _const_value(n):
